@@ -16,7 +16,7 @@ def register_shapes(reg):
     reg.shape('Documentable', {
         'name': 'Str', 'parent': 'RefN[Documentable]', 'system': 'Ref[System]',
         'kind': 'Opt[Enum[DocumentableKind]]', 'parentMod': 'RefN[Module]',
-        'docstring_lineno': 'Int', 'linenumber': 'Int',
+        'docstring_lineno': 'Int', 'linenumber': 'Int', 'sourceHref': 'Opt[Str]',
         'documentation_location': 'Enum[DocLocation]',
         'contents': 'Map[Str,Ref[Documentable]]',
     })
@@ -57,3 +57,9 @@ def register_visitor_shapes(reg):
     reg.shape('_BaseVisitor', {})
     reg.shape('Visitor', {'extensions': 'Ref[ExtList]'}, bases=('_BaseVisitor',))
     reg.shape('ExtList', {'_visitors': 'DefaultMap[Enum[When],Seq[Obj[Ext]]]'})
+
+
+def register_builder_shapes(reg):
+    reg.shape('ASTBuilder', {'_stack': 'Seq[RefN[Documentable]]', 'current': 'RefN[Documentable]',
+                             'currentMod': 'RefN[Module]', 'currentAttr': 'RefN[Documentable]',
+                             'system': 'Ref[System]'})
